@@ -39,7 +39,7 @@ def tbool(b):
 
 def cfg(spec, shapes, kinds, threads, episodes, dead_fixed, trust, invs=(), view=False,
         task_states=TASK_STATES, call_states=CALL_STATES, statuses=REAL_STATUSES, extra="", merge_atomic=True,
-        priority=False):
+        priority=False, propagate=True, sample_step=True):
     return """SPECIFICATION %s
 CONSTANTS
   ShapeNames = %s
@@ -52,13 +52,15 @@ CONSTANTS
   NoOpinionInit = %s
   TrustCarried = %s
   MergeAtomic = %s
+  PropagateAlways = %s
+  SampleStep = %s
 %s
 %s
 %s
 %s
 CHECK_DEADLOCK FALSE
 """ % (spec, tset(shapes), tset(kinds), tset(task_states), tset(call_states), tset(statuses), threads, episodes,
-       tbool(dead_fixed), tbool(trust), tbool(merge_atomic),
+       tbool(dead_fixed), tbool(trust), tbool(merge_atomic), tbool(propagate), tbool(sample_step),
        ("  Priority = " + tbool(priority)) if spec == "GenSpec" else "",
        ("INVARIANTS " + " ".join(invs)) if invs else "",
        "VIEW ViewNoLast" if view else "", extra)
@@ -163,15 +165,25 @@ def unq(x):
     return x.strip().strip('"')
 
 
-def beh_to_steps(beh):
+def beh_to_steps(beh, add_sample=False):
+    """Steps of a TLC behaviour. add_sample: the behaviour comes from a model run with SampleStep = FALSE (the sample of
+    the old value taken together with MergeEnter); the gates have the finer granularity, so the sample is put in front
+    of every merge (a thread that found the role locked waits at the sample already)."""
     steps = []
     for (name, args, st) in beh[1:]:
         if name.startswith("G_"):
             name = name[2:]
         if name == "Begin":
             steps.append({"a": "Begin", "t": int(args[0]), "leaf": int(args[1]), "kind": unq(args[2]), "v": unq(args[3])})
-        elif name in ("MergeEnter", "MergeUnblock", "MergeAssign", "ReadCache", "Deliver"):
-            steps.append({"a": name, "t": int(args[0])})
+        elif name in ("Sample", "MergeEnter", "MergeUnblock", "MergeAssign", "ReadCache", "Deliver"):
+            t = int(args[0])
+            if add_sample and name == "MergeEnter":
+                steps.append({"a": "Sample", "t": t})
+                if st["thr"][t - 1]["pc"] == "blocked":
+                    continue
+            steps.append({"a": name, "t": t})
+            if add_sample and name == "MergeUnblock":
+                steps.append({"a": "MergeEnter", "t": t})
         else:
             raise vlib.Inconclusive("unlabelled step in a TLC behaviour: %r" % (name,))
     return steps
@@ -196,6 +208,9 @@ def run(ctx):
         "interleavings have this granularity (gates role.enter / merge.computed / role.merged). The role's write lock is an "
         "explicit model variable; read locks (the re-read, the walk over the children) are over-approximated in the exhaustive "
         "model (a read never waits) and avoided in the imposed schedules",
+        "propagation probes: counterexamples of the model with PropagateAlways = FALSE (an aggregator that tells its parent "
+        "only when its value differs from the one sampled before the merge; three overlapping updates through one non-root "
+        "aggregator) are imposed on the real code through the gate role.sampled: every update must be seen entering the parent",
         "lock probes: counterexamples of the model with MergeAtomic = FALSE (merge computes outside the lock), cut after the "
         "first contended merge, are imposed on the real code: the entering update must be observed waiting (no gate reached "
         "within 30 ms while the holder is parked inside the merge - it cannot progress, so the wait only bounds 'nothing more "
@@ -248,7 +263,7 @@ def run(ctx):
         with open(ctx.replay) as fh:
             replay_only = json.load(fh)["replay"]["scenario"]
 
-    def add_cex(res, sid, origin):
+    def add_cex(res, sid, origin, add_sample=False):
         m = re.search(r"is violated by the initial state:(.*?)\n\s*\n", res.out, re.S)
         if m:
             # the freshly loaded tree already breaks the invariant: a scenario without steps
@@ -259,7 +274,7 @@ def run(ctx):
         if not beh:
             raise vlib.Inconclusive("no counterexample parsed for " + origin)
         shp = beh[0][2]["shape"]
-        scenarios.append(mk_scenario(sid, shp, beh_to_steps(beh), None, origin))
+        scenarios.append(mk_scenario(sid, shp, beh_to_steps(beh, add_sample), None, origin))
 
     def mk_scenario(sid, shp, steps, prng, origin):
         root, subs = shapes[shp].templates(prng)
@@ -275,7 +290,7 @@ def run(ctx):
             # the model as configured (known deviations included) breaks the property: replay it; the
             # monitor decides whether the real code does
             sid = 100 + len(predicted)
-            add_cex(res, sid, "model-counterexample:" + res.violated[0] + ":" + what)
+            add_cex(res, sid, "model-counterexample:" + res.violated[0] + ":" + what, add_sample=True)
             predicted.append((sid, res.violated[0], None))
 
     if replay_only is not None:
@@ -291,55 +306,61 @@ def _model_check(ctx, quick, names, dead, live, dead_open, stale_open, mc, must_
                  trust, add_probe):
     # ------------------------------------------------------------------ 1. exhaustive model checking
     ERR = ["ErrorNotLost", "ErrorNotInvented"]
+
+    def mch(*a, **kw):
+        # runs expected to hold describe the code as it is, where the sampled value is used for the role events only:
+        # the sample is taken together with MergeEnter (same reachable caches, fewer states)
+        return mc(*a, sample_step=False, **kw)
+
     # 1a/1b sequential, state: every sequence of updates (unbounded length), all shapes. With the deviation open the
     # model is checked against FoldStateAsIs (= FoldState wherever no aggregator lacks a critical descendant), which
     # shows that the deviation is the only one; FoldInv proper is then expected to fail on the remaining shapes.
     SEQ = ["TypeOK", "ErrorNotInventedEver", "AdapterFresh"] + ERR
     seq_states = TASK_STATES[:4] if quick else TASK_STATES
     if dead_open:
-        must_hold(mc(names, ["state"], 1, 0, SEQ + ["FoldStateAsIsInv"], view=False, task_states=seq_states),
+        must_hold(mch(names, ["state"], 1, 0, SEQ + ["FoldStateAsIsInv"], view=False, task_states=seq_states),
                   "sequential state, deviation taken as given")
-        rd = mc(dead, ["state"], 1, 0, ["FoldStateInv"])
+        rd = mch(dead, ["state"], 1, 0, ["FoldStateInv"])
         if rd.violated:
-            add_cex(rd, 1, "model-counterexample:FoldInv:" + DEV_DEAD)
+            add_cex(rd, 1, "model-counterexample:FoldInv:" + DEV_DEAD, add_sample=True)
             predicted.append((1, "FoldInv", DEV_DEAD))
         else:
             ctx.observations.append("deviation %s is open but the model does not violate FoldInv" % DEV_DEAD)
     else:
-        must_hold(mc(names, ["state"], 1, 0, SEQ + ["FoldStateInv"], view=False, task_states=seq_states), "sequential state")
+        must_hold(mch(names, ["state"], 1, 0, SEQ + ["FoldStateInv"], view=False, task_states=seq_states), "sequential state")
     # 1c sequential, status
-    must_hold(mc(names, ["status"], 1, 0, ["TypeOK", "FoldStatusInv", "AdapterFresh"], view=False,
+    must_hold(mch(names, ["status"], 1, 0, ["TypeOK", "FoldStatusInv", "AdapterFresh"], view=False,
                  statuses=REAL_STATUSES if quick else ALL_STATUSES), "sequential status")
     # 1d order independence of two updates of different leaves, from every reachable quiescent state
     oi_shapes = ["S03", "S10"] if quick else [s for s in names if s != "S12"]
     oi_states = ["CONFIGURED", "RUNNING", "ERROR"] if quick else TASK_STATES
-    must_hold(mc(oi_shapes, ["state"], 1, 0, ["OrderIndependent"], task_states=oi_states), "order independence (state)")
-    must_hold(mc(oi_shapes, ["status"], 1, 0, ["OrderIndependent"]), "order independence (status)")
+    must_hold(mch(oi_shapes, ["state"], 1, 0, ["OrderIndependent"], task_states=oi_states), "order independence (state)")
+    must_hold(mch(oi_shapes, ["status"], 1, 0, ["OrderIndependent"]), "order independence (status)")
     # 1e two concurrent updates, state
     con_shapes = ["S03", "S10"] if quick else live
     # (the healthy states are interchangeable in XS: three of them and ERROR are enough for two concurrent updates)
     con_states = ["CONFIGURED", "RUNNING", "ERROR"] if quick else TASK_STATES[:4]
     if stale_open:
-        must_hold(mc(con_shapes, ["state"], 2, 1, ["ErrorNotLost"], task_states=con_states), "concurrent state: ErrorNotLost")
-        rf = mc(con_shapes, ["state"], 2, 1, ["FoldStateInv"], task_states=con_states)
+        must_hold(mch(con_shapes, ["state"], 2, 1, ["ErrorNotLost"], task_states=con_states), "concurrent state: ErrorNotLost")
+        rf = mch(con_shapes, ["state"], 2, 1, ["FoldStateInv"], task_states=con_states)
         if rf.violated:
-            add_cex(rf, 2, "model-counterexample:FoldInv:" + DEV_STALE)
+            add_cex(rf, 2, "model-counterexample:FoldInv:" + DEV_STALE, add_sample=True)
             predicted.append((2, "FoldInv", DEV_STALE))
-        ri = mc(con_shapes, ["state"], 2, 1, ["ErrorNotInvented"], task_states=con_states)
+        ri = mch(con_shapes, ["state"], 2, 1, ["ErrorNotInvented"], task_states=con_states)
         if ri.violated:
-            add_cex(ri, 3, "model-counterexample:ErrorNotInvented:" + DEV_STALE)
+            add_cex(ri, 3, "model-counterexample:ErrorNotInvented:" + DEV_STALE, add_sample=True)
             predicted.append((3, "ErrorNotInvented", DEV_STALE))
         if not (rf.violated or ri.violated):
             ctx.observations.append("deviation %s is open but the model violates nothing under concurrency" % DEV_STALE)
     else:
-        must_hold(mc(con_shapes, ["state"], 2, 1, ["TypeOK", "FoldStateInv"] + ERR, task_states=con_states), "concurrent state")
+        must_hold(mch(con_shapes, ["state"], 2, 1, ["TypeOK", "FoldStateInv"] + ERR, task_states=con_states), "concurrent state")
     # 1f two concurrent updates, status (the statuses the callers send: no UNDEFINED)
-    must_hold(mc(con_shapes if quick else names, ["status"], 2, 1, ["FoldStatusInv"]), "concurrent status")
+    must_hold(mch(con_shapes if quick else names, ["status"], 2, 1, ["FoldStatusInv"]), "concurrent status")
     if not quick and stale_open:
         # with UNDEFINED told to a leaf the same stale shortcut exists for status
-        ru = mc(["S03", "S06", "S11"], ["status"], 2, 1, ["FoldStatusInv"], statuses=ALL_STATUSES)
+        ru = mch(["S03", "S06", "S11"], ["status"], 2, 1, ["FoldStatusInv"], statuses=ALL_STATUSES)
         if ru.violated:
-            add_cex(ru, 4, "model-counterexample:FoldInv(status):" + DEV_STALE)
+            add_cex(ru, 4, "model-counterexample:FoldInv(status):" + DEV_STALE, add_sample=True)
             predicted.append((4, "FoldInv", DEV_STALE))
     # 1i lock probes. The model of a merge that computes outside the role's lock (MergeAtomic = FALSE) loses an
     # ERROR / breaks the fold; its counterexample, cut right after the step where the two models part (an update
@@ -361,7 +382,7 @@ def _model_check(ctx, quick, names, dead, live, dead_open, stale_open, mc, must_
         cut = None
         for i in range(1, len(beh)):
             name, args, _ = beh[i]
-            if name.replace("G_", "") != "MergeEnter":
+            if name.replace("G_", "") not in ("Sample", "MergeEnter"):
                 continue
             pre = beh[i - 1][2]["thr"]
             u = int(args[0])
@@ -374,17 +395,47 @@ def _model_check(ctx, quick, names, dead, live, dead_open, stale_open, mc, must_
         add_probe(pid, beh[0][2]["shape"], beh_to_steps(beh[:cut + 1]), "lock-probe:%s:%s" % (pkind, pinv))
         probes.append(pid)
     ctx.extra["lock_probes"] = {"scenarios": probes}
+    # 1j propagation probes. The model of an aggregator that passes its value on only when it differs from the value it
+    # sampled before the merge (PropagateAlways = FALSE) leaves an ancestor stale once an update that sampled, was
+    # overtaken and merged the role back to the sampled value is dropped. Its counterexample (three overlapping updates
+    # through one non-root aggregator) is imposed on the real code, where every update must be seen entering the parent.
+    pprobes = []
+    for (pid, pshapes, pkind, pinv, nthr, pstat) in [(12, ["S20"], "status", "FoldStatusInv", 2, ["INACTIVE", "ACTIVE"])] + \
+            ([] if quick else [(13, ["S03"], "state", "FoldStateInv", 2, None),
+                               (14, ["S20"], "status", "FoldStatusInv", 3, REAL_STATUSES)]):
+        kw = {"statuses": pstat} if pstat else {"task_states": ["CONFIGURED", "RUNNING", "ERROR"]}
+        rp = ctx.model_check("RoleTreeGen", None, workers=W, timeout=840,
+                             cfg_text=cfg("GenSpec", pshapes, [pkind], nthr, 2, dead_fixed, False, [pinv], True,
+                                          propagate=False, priority=True, **kw))
+        if not rp.violated:
+            raise vlib.Inconclusive("the model with PropagateAlways = FALSE does not violate %s on %s" % (pinv, pshapes))
+        beh = rp.counterexample()
+        cut, dropped = len(beh), False
+        for i in range(1, len(beh)):
+            name, args, post = beh[i]
+            name = name.replace("G_", "")
+            if name == "ReadCache" and post["thr"][int(args[0]) - 1]["pc"] == "idle":
+                dropped = True          # from here on the real code has one more update in flight than this model
+            elif name == "Begin" and dropped:
+                cut = i
+                break
+        if not dropped:
+            raise vlib.Inconclusive("no dropped update in the PropagateAlways = FALSE counterexample of " + pinv)
+        add_probe(pid, beh[0][2]["shape"], beh_to_steps(beh[:cut]), "propagation-probe:%s:%s" % (pkind, pinv))
+        pprobes.append(pid)
+    ctx.extra["propagation_probes"] = {"scenarios": pprobes}
     # 1g what the adapter saw last (observation, outside C11)
-    ra = mc(["S01", "S03"], ["state"], 2, 1, ["AdapterFresh"], view=False, task_states=["CONFIGURED", "RUNNING"])
+    ra = mch(["S01", "S03"], ["state"], 2, 1, ["AdapterFresh"], view=False, task_states=["CONFIGURED", "RUNNING"])
     adapter_sid = None
     if ra.violated:
         adapter_sid = 5
-        add_cex(ra, adapter_sid, "model-counterexample:AdapterFresh")
+        add_cex(ra, adapter_sid, "model-counterexample:AdapterFresh", add_sample=True)
     # 1h the model as repaired satisfies everything, also under concurrency (supports the proposed repairs)
     if not quick and (dead_open or stale_open):
         rr = ctx.model_check("RoleTreeGen", None, workers=W, timeout=840,
                              cfg_text=cfg("GenSpec", names, ["state"], 2, 1, True, False,
-                                          ["TypeOK", "FoldStateInv"] + ERR, True, task_states=["CONFIGURED", "RUNNING", "ERROR"]))
+                                          ["TypeOK", "FoldStateInv"] + ERR, True, task_states=["CONFIGURED", "RUNNING", "ERROR"],
+                                          sample_step=False))
         ctx.extra["repaired_model"] = {"NoOpinionInit": True, "TrustCarried": False, "distinct": rr.distinct,
                                        "result": "ok" if rr.no_error else "violated:" + ",".join(rr.violated)}
         if not rr.no_error:
@@ -504,7 +555,7 @@ def _replay_and_validate(ctx, scenarios, predicted, adapter_sid, dead_fixed, tru
         ctx.extra["lock_probes"]["probes_blocked"] = sorted({x["scn"] for x in lines if x.get("pc") == "blocked" and x.get("scn") in pids})
 
     # ------------------------------------------------------------------ 4. trace validation by TLC
-    tcfg = cfg("TraceSpec", ["S01"], ["state", "status"], 2, 1000000, dead_fixed, trust, ["PrintEnd"], False,
+    tcfg = cfg("TraceSpec", ["S01"], ["state", "status"], 3, 1000000, dead_fixed, trust, ["PrintEnd"], False,
                task_states=ALL_STATES, call_states=ALL_STATES, statuses=ALL_STATUSES).replace("INVARIANTS", "INVARIANT")
     viol, drift, tr = ctx.validate("RoleTreeTrace", None, trace_file, cfg_text=tcfg, timeout=1200)
     ctx.traces = sum(1 for x in lines if x["ev"] == "Reset")
